@@ -31,6 +31,10 @@ def run(ctx, res):
                         if a["hasDefault"] and t0["k"] == "list" and t0["of"]["k"] == "nn" and t0["of"]["of"]["k"] == "named":
                             sites.append([f["name"], a["name"], t0["of"]["of"]["n"]])
         kinds[sc["name"]]["nnListDefaultSites"] = sites
+        ds = sc["model"]["defs"]
+        explicit = [o["op"] for d in ds if d["k"] == "schema" for o in d["ops"]]
+        kinds[sc["name"]]["rootKinds"] = explicit if any(d["k"] == "schema" for d in ds) else \
+            [k for k, n in (("query", "Query"), ("mutation", "Mutation"), ("subscription", "Subscription")) if any(d["k"] == "object" and d["name"] == n for d in ds)]
     for t in triples:
         base = docs[t["doc"] - 1]
         op = G2.OPERATORS[t["operator"] - 1]
